@@ -352,7 +352,7 @@ PROPS["C09"] = {
     "design_ref": "DESIGN.md §6 C09",
     "undecided": [
         "k-mer level content of the result: the sequence of an output node is only known as 'what DebruijnGraph::sequence_of_path spells for its node path' (path_seq_of: enumerate + reference patterns are outside the Verus subset; assumed contract, spelled sequence abstract), so 'k-mers of the result == k-mers of the non-censored nodes' is decided at NODE granularity only",
-        "maximality of the merged paths as a whole-run statement, idempotence, agreement with the direct route; the link facts of each walk step (try_extend_node's Unique postcondition) are not yet carried through extend_node's path",
+        "maximality of the merged paths as a whole-run statement, idempotence, agreement with the direct route. Per merged node the link facts ARE part of build_node's contract (nbuild_post: every step of both walks was a link that find_link resolves to an available, non-palindromic, join-accepted node with a sole facing extension - nstep_ok -, and both walks stopped only where the node may not leave or the resolved link is not acceptable - nstop), but they are not lifted into the whole-run statement (orientation bookkeeping of the assembled path)",
         "BaseGraph::finish (parallel boomphf index construction) and the closing debug_assert!(is_compressed) are outside the Verus subset; the final fix_exts(None) is covered by fix_exts' own contract"],
     "trust": VERUS_TRUST + GRAPH_TRUST + [SEAM_NOTE],
     "level_text": "NODE-LEVEL whole-run statement as a machine-checked postcondition of the real compress_graph up to (not including) finish() (Verus, unbounded; wrapper compress_graph_core around the statement range, rule R15; ncompress_post in verus/units/compgraph.rs.tmpl): there is an assignment of old-graph nodes to (output node, position) such that every output node is a non-empty path of pairwise different SURVIVING nodes (not censored), no old node lies on two paths or twice on one, EVERY surviving node lies on some path, each output sequence is what sequence_of_path spells for that path, and each output payload is the caller's reduction folded over exactly the payloads of the path's nodes (seed first, then leftwards, then rightwards). Underneath, all on real bodies: the availability loops (all nodes minus the censor list), fix_exts(Some(&available)) (exact pruning: no extension left pointing at a censored or absent node, nothing else dropped) and the lemma that after it every listed extension resolves; the WHOLE of the node-level build_node (both walks, both assembly loops, terminal extensions; rules R16/R17); extend_node (terminates, takes exactly the start node and the walked nodes out of the available set, returns the last node's far extensions); try_extend_node (panic-free, Unique only along a link that find_link resolves to an available, non-palindromic, join-accepted node with a sole facing extension; Terminal otherwise); BaseGraph::new/add.",
